@@ -4,6 +4,7 @@ import (
 	"fmt"
 	"sort"
 	"strings"
+	"sync"
 
 	"ergo.services/ergo/gen"
 )
@@ -27,9 +28,9 @@ func tmName(n int) gen.Atom { return gen.Atom(fmt.Sprintf("name%d", n)) }
 
 // tmTarget: kind P,N,A,E,O,X
 type tmTarget struct {
-	kind     byte
-	node     int
-	id, cr   int // id doubles as the name index for N/E and as the value for X
+	kind   byte
+	node   int
+	id, cr int // id doubles as the name index for N/E and as the value for X
 }
 
 func (t tmTarget) tok() string {
@@ -400,10 +401,39 @@ func tmK2(c *Ctx, nseq, maxlen int) {
 			r.Sample(map[string]interface{}{"kind": "K2 TargetManager", "ops": s.lines, "impl": s.impl})
 		}
 	}
-	outs, err := Model("tm", all)
-	if err != nil {
-		r.Disagree("tm.driver", err.Error(), nil)
-		return
+	// the sequences are independent (each starts with `reset`): split at sequence boundaries over several driver processes
+	const workers = 8
+	outs := make([]string, len(all))
+	errs := make([]error, workers)
+	var wg sync.WaitGroup
+	per := (len(starts) + workers - 1) / workers
+	for w := 0; w < workers; w++ {
+		lo := w * per
+		if lo >= len(starts) {
+			break
+		}
+		hi := (w + 1) * per
+		from, to := starts[lo], len(all)
+		if hi < len(starts) {
+			to = starts[hi]
+		}
+		wg.Add(1)
+		go func(w, from, to int) {
+			defer wg.Done()
+			res, err := Model("tm", all[from:to])
+			if err != nil {
+				errs[w] = err
+				return
+			}
+			copy(outs[from:to], res)
+		}(w, from, to)
+	}
+	wg.Wait()
+	for _, err := range errs {
+		if err != nil {
+			r.Disagree("tm.driver", err.Error(), nil)
+			return
+		}
 	}
 	for i := range all {
 		if outs[i] != impl[i] {
